@@ -4,7 +4,7 @@ import Dawn.Model.Pickle
 
     enc <p|n> <graph>        → `ok <hex bytes>` | `err`            p = a host Pickler is installed, n = nil
     encold <p|n> <graph>     → same with the batch re-encode of D2 (regression witness only)
-    dec <n|h|H> <hex bytes>  → `ok <graph>` | `err` | `nil` | `either`
+    dec <n|h|H> <hex bytes>  → `ok <graph>` | `err` | `nil` | `either ok` | `either nil`
                                n = nil Unpickler, h = the harness's host (name starting `!` → error, `?` → run-time
                                panic), H = h plus (`#` → panic with a non-error value)
     decold <n|h|H> <hex>     → same with the BININT2 decoding of D1 (regression witness only)
@@ -16,7 +16,7 @@ import Dawn.Model.Pickle
   empty byte string = `-`.  The `ok` graph of `dec` is renumbered canonically (containers when first met, tuples and
   host objects when complete, every tuple occurrence its own object), the same traversal the harness uses on Go values.
   `either`: the input contains an INT whose text is not canonical decimal and might still be accepted by
-  `big.Int.UnmarshalText` (sign `+`, base prefixes, `_`): the model does not decide it. -/
+  `big.Int.UnmarshalText` (sign `+`, base prefixes, `_`): the model does not decide it; Go answers `err` or the named class. -/
 open Dawn.Pickle Driver
 
 def hexB (b : Bytes) : String := hexBytes b
@@ -202,7 +202,13 @@ def doDec (old : Bool) (flag hx : String) : String :=
   | some bs, some cfg, some cfgU =>
     let strict := showOutcome (decode cfg bs)
     -- if treating undecided INT text as accepted changes nothing, the answer does not depend on it
-    if strict == "err" && showOutcome (decode cfgU bs) != "err" then "either" else strict
+    if strict == "err" then
+      match decode cfgU bs with
+      | .err _ => strict
+      | .ok _ _ => "either ok"
+      | .nilNoErr => "either nil"
+      | .outOfFuel => "hang"
+    else strict
   | _, _, _ => "bad-input"
 
 def doEnc (old : Bool) (flag gs : String) : String :=
